@@ -344,14 +344,14 @@ class DualPortSynchronousMemory(Logic):
         # always reading
         #print(f'reading address {add} = {self.data[add]}')
         self.readdata_a.prepare(self.data[radda])
-        
-        if (self.writea.get()):
-            self.data[wadd] = self.writedataa.get()
-            
         self.readdata_b.prepare(self.data[raddb])
         
-        if (self.writeb.get()):
-            self.data[wadd] = self.writedatab.get()
+        # both ports read the content before any same-cycle write
+        if (self.write_a.get()):
+            self.data[wadda] = self.writedata_a.get()
+            
+        if (self.write_b.get()):
+            self.data[waddb] = self.writedata_b.get()
 
 
     def verilogBody(self):
